@@ -227,6 +227,9 @@ var shapes = []shapeDef{
 			}
 			return &Shape{A: i, B: fmt.Sprint("b", i)}
 		}},
+	{"no-exported-fields",
+		func() sod.Object { type Shape struct{ sod.Item }; return &Shape{} },
+		func(i int) sod.Object { type Shape struct{ sod.Item }; return &Shape{} }},
 	{"same-shape-redeclared",
 		func() sod.Object {
 			type Shape struct {
@@ -525,6 +528,11 @@ func caseC17Settings(t TB, prog *Program) {
 				// the schema handed to Create may also carry another Compress flag: compression is a
 				// property of the stored collection, the stored setting keeps governing file names
 				sch := nc.Schema()
+				if nc.Async == nil && op.Cfg.Ext == "explicit-off" {
+					// async writes switched off through an explicit, disabled settings value
+					sch.AsyncWrites = &sod.Async{Enable: false, Threshold: 2, Timeout: 300 * time.Millisecond}
+					e.flag("switch-async-off-explicit-settings")
+				}
 				if op.Cfg.Compress {
 					sch.Compress = !e.cfg.Compress
 					e.flag("switch-with-other-compress-flag")
@@ -636,6 +644,8 @@ func TestC17(t *testing.T) {
 					c := Config{Cache: g.pct("sc") < 50, Compress: g.pct("scomp") < 25}
 					if g.pct("sa") < 50 {
 						c.Async = &AsyncCfg{Threshold: 1 + g.uni(8, "st"), TimeoutMs: 100 * (1 + g.uni(10, "sto"))}
+					} else if g.pct("explicitoff") < 50 {
+						c.Ext = "explicit-off"
 					}
 					op.Cfg = &c
 				}
